@@ -124,6 +124,16 @@ CLAIMED.update({
    technique="Coq proof (parser round trip by induction on paths with fuel bounds; LeftJoin chain invariant; composition with C03) + Tie-A evaluation + printer/parser/engine correspondence + two-mode differential on /repo",
    ref="4 (C07)"),
 })
+CLAIMED.update({
+ "C15": dict(
+   text="Coq proofs about the executable model of pyshacl.rules (gather order, apply_rules, TripleRule/SPARQLRule.apply, filter_conditions), parametric in the focus-node and condition-conformance functions: every input triple is kept and every other triple of the result is produced by an ACTIVE rule fired on a focus node of its shape "
+        "(on the graph as it stood when the rule ran) that conforms to all sh:condition shapes; shapes and each shape's rules run in ascending sh:order regardless of harvest order (sorting is unique for pairwise distinct orders); deactivated rules are equivalent to absent ones; "
+        "with iterate_rules a shape's loop ends only when no active rule can add a triple (quiescence); without it, one pass in order. The model is tied to /repo by differential correspondence of shacl_rules() outputs, and both are compared with an independent reference implementation of the documented procedure; "
+        "validate(advanced=True) is compared with plain validation of the reference-expanded graph.",
+   note=BASE_NOTE + "CONSTRUCT rules are modelled for basic-graph-pattern templates (the SPARQL engine is rdflib's); node expressions limited to sh:this/constant/sh:path (function calls: C17). Holds after fix commit 34b590c (use_shapes + sh:condition).",
+   technique="Coq proof (loop invariants over the rule/shape/iteration loops; uniqueness of sorting) + vm_compute correspondence + differential against an independent reference implementation",
+   ref="4 (C15)"),
+})
 NOT_YET = {}
 ALL = ["C%02d" % i for i in range(1, 21)]
 REASONS = {}
